@@ -9,6 +9,7 @@ from __future__ import annotations
 
 import importlib
 
+from .loader import AnalysisError
 from .report import Report, load_known
 
 
@@ -25,6 +26,10 @@ def delegate(repo, rep: Report, tier: str, src_pid: str, src_rules: tuple[str, .
     _ACTIVE.extend(pushed)
     try:
         mod.run(repo, sub, tier)
+    except AnalysisError as exc:
+        sub.defer(str(exc))
+    except Exception as exc:  # the source's rule module met a shape it does not handle: not analysed, never a pass
+        sub.defer(f"rule module crashed: {type(exc).__name__}: {exc}")
     finally:
         for p in pushed:
             _ACTIVE.remove(p)
